@@ -71,7 +71,7 @@ func c20Body(p c20Params) func() {
 			if p.Mode == "SignAndEncrypt" {
 				ccfg, scfg = securedCfgs(ua.SecurityPolicyURIBasic256Sha256, ua.MessageSecurityModeSignAndEncrypt, 3600000, 30*time.Second)
 			}
-			srv := &echoServer{cfg: scfg}
+			srv := &echoServer{cfg: scfg, ack: smallAck()}
 			srv.respond = func(s *echoServer, ctx context.Context, msg *uasc.MessageBody) {
 				req := msg.Request()
 				obs.hold("request delivered to the server application", req)
